@@ -1,0 +1,31 @@
+/* Verification hooks: compiled only with -DORC_VERIF_HOOKS.
+ * Nothing here changes what the library does; the hooks only report
+ * what it did, as ndjson lines appended to the file named by the
+ * environment variable ORC_VERIF_TRACE. */
+#ifndef _ORC_VERIF_H_
+#define _ORC_VERIF_H_
+
+#ifdef ORC_VERIF_HOOKS
+
+#include <orc/orcutils.h>
+
+ORC_BEGIN_DECLS
+
+/* TRUE when ORC_VERIF_TRACE names a file that could be opened */
+ORC_API int orc_verif_enabled (void);
+/* appends {"q":<seq>,"t":<thread>,<formatted fields>}\n in one write() */
+ORC_API void orc_verif_emit (const char *fmt, ...) ORC_GNU_PRINTF(1,2);
+
+ORC_END_DECLS
+
+#define ORC_VERIF_EMIT(...) do { \
+  if (orc_verif_enabled ()) orc_verif_emit (__VA_ARGS__); \
+} while (0)
+
+#else
+
+#define ORC_VERIF_EMIT(...) do { } while (0)
+
+#endif
+
+#endif
